@@ -455,7 +455,7 @@ package query
 //@ axiom rank_monotone: forallv(s, []bool, forall(j, 0, MaxInt64, forall(k, 0, MaxInt64, j <= k ==> rankOf(s, j) <= rankOf(s, k))))
 
 //@ func (*View).filter$1
-//@   property C03
+//@   property C03 C12 C13
 //@   requires 0 <= rIdx && rIdx < len(results)
 //@   ensures [slot-set-iff-true] result == nil ==> results[rIdx] == (old(results[rIdx]) || value.ternOf(lastEval) == ternary.TRUE)
 //@   ensures [other-slots-untouched] forall(k, 0, len(results), k != rIdx ==> results[k] == old(results[k]))
@@ -571,7 +571,7 @@ package query
 //@   modifies *
 
 //@ func (*View).Fix$1
-//@   property C03 C05
+//@   property C03 C05 C12 C13
 //@   safety
 //@   requires view != nil && 0 <= index && index < len(view.RecordSet) && fieldLen == len(view.selectFields)
 //@   requires forall(q, 0, len(view.selectFields), 0 <= view.selectFields[q] && view.selectFields[q] < len(view.RecordSet[index]) && len(view.RecordSet[index][view.selectFields[q]]) >= 1)
@@ -603,7 +603,7 @@ package query
 // one row of the merged join result: column i of the output is input column fieldIndices[i], except that a NULL
 // join column takes the value of its counterpart from the other table (alternatives maps column index to column index)
 //@ func joinViews$2
-//@   property C03
+//@   property C03 C12 C13
 //@   safety
 //@   requires view != nil && 0 <= index && index < len(view.RecordSet) && fieldLen == len(fieldIndices) && poolWf(includeIndices) && alternatives != nil
 //@   requires forall(q, 0, len(fieldIndices), 0 <= fieldIndices[q] && fieldIndices[q] < len(view.RecordSet[index]) && len(view.RecordSet[index][fieldIndices[q]]) >= 1)
@@ -965,7 +965,7 @@ package query
 // C19: rectangular tables. LTSV rows lack the labels first seen on later lines; each row is padded to the header
 // length (worker closure run under GoroutineTaskManager.Run).
 //@ func loadViewFromLTSVFile$1
-//@   property C19
+//@   property C19 C12 C13
 //@   safety
 //@   requires 0 <= index && index < len(records)
 //@   ensures [row-as-long-as-header] result == nil && len(records[index]) == max(old(len(records[index])), len(header))
@@ -995,7 +995,7 @@ package query
 //@     forall(c, 0, len(view.Header), len(view.RecordSet[idx][c]) >= 1)
 
 //@ func (*View).group$2
-//@   property C04 C12
+//@   property C04 C12 C13
 //@   safety
 //@   requires view != nil && 0 <= gIdx && gIdx < len(groupKeys) && gIdx < len(records) && groupKeyCnt != nil
 //@   requires groupKeyCnt[groupKeys[gIdx]] == gsum(groupsList, groupKeys[gIdx], len(groupsList)) && groupKeyCnt[groupKeys[gIdx]] >= 0
